@@ -22,7 +22,8 @@ structure ACfg where
   hasCmt : Bool               -- a column of type `compartment` exists
   hasAdm : Bool               -- a column of type `admid` exists
   doseCmt : Nat               -- number of `dosing_compartments[0]` (1 without compartmental system)
-  central : Option Nat        -- `central_number`: set only when the central compartment takes doses
+  central : Nat               -- `central_number` (number of the central compartment; 05d598c: always bound)
+  centralDosing : Bool        -- the central compartment takes doses (`remap[2] = central_number`)
   other : Option Nat          -- `remap[1]`: number of the last dosing compartment that is not central
   remap : List (Nat × Nat)    -- `get_admid`: number of a dosing compartment ↦ admid of its first dose
   deriving Repr, Inhabited
@@ -34,15 +35,18 @@ def replaceVal (tbl : List (Nat × Nat)) (v : Nat) : Nat := (tbl.lookup v).getD 
 def evidCmt (c : ACfg) (evid : Nat) : Nat :=
   replaceVal [(1, c.doseCmt), (2, 0), (3, 0), (4, c.doseCmt)] evid
 
-/-- `get_cmt`; `none` = the call raises (central_number unbound) -/
-def getCmt (c : ACfg) (ds : List ERec) : Option (List Nat) :=
-  if c.hasCmt then some (ds.map (·.cmt))
-  else if !c.hasAdm then some (ds.map (fun r => evidCmt c r.evid))
-  else match c.central with
-    | none => none
-    | some cn =>
-      let tbl := (2, cn) :: (match c.other with | some o => [(1, o)] | none => [])
-      some (ds.map (fun r => if r.evid == 0 then cn else replaceVal tbl r.adm))
+/-- `admidcols.replace(remap)` of `get_cmt`: admid 2 ↦ central (if it takes doses), admid 1 ↦ the other dosing compartment -/
+def admTbl (c : ACfg) : List (Nat × Nat) :=
+  (if c.centralDosing then [(2, c.central)] else []) ++ (match c.other with | some o => [(1, o)] | none => [])
+
+/-- `get_cmt` of one record -/
+def cmtOf (c : ACfg) (r : ERec) : Nat :=
+  if c.hasCmt then r.cmt
+  else if !c.hasAdm then evidCmt c r.evid
+  else if r.evid == 0 then c.central else replaceVal (admTbl c) r.adm
+
+/-- `get_cmt` (total for every compartmental model since 05d598c) -/
+def getCmt (c : ACfg) (ds : List ERec) : List Nat := ds.map (cmtOf c)
 
 /-- what the forward-fill loop of `get_admid` reads of a record -/
 structure ARow where
@@ -51,10 +55,13 @@ structure ARow where
   own : Nat       -- `get_cmt(model).replace(remap)` at the record
   deriving DecidableEq, Repr, Inhabited
 
+/-- `event in (1, 4)` (208e5ef) -/
+def isDoseEv (evid : Nat) : Bool := evid == 1 || evid == 4
+
 /-- one iteration: state `(current_subject, current_admin)`, output `adm[i]` -/
 def admStep (s : Int × Nat) (r : ARow) : (Int × Nat) × Nat :=
   if s.1 == r.id then
-    if r.evid == 1 then ((s.1, r.own), r.own) else (s, s.2)
+    if isDoseEv r.evid then ((s.1, r.own), r.own) else (s, s.2)
   else ((r.id, r.own), r.own)
 
 def admLoop : Int × Nat → List ARow → List Nat
@@ -78,12 +85,12 @@ def getAdmid (c : ACfg) (ds : List ERec) : List Nat :=
 
 /-! ## Specification: one individual at a time -/
 
-/-- walk over the records of ONE individual: an EVID 1 record carries its own route and makes it
-    the last used one, every other record carries the last used route (initially: the value of
-    the individual's first record) -/
+/-- walk over the records of ONE individual: a dose record (EVID 1 or 4) carries its own route and
+    makes it the last used one, every other record carries the last used route (before the first
+    dose: the value of the individual's first record) -/
 def indWalk (cur : Nat) : List ARow → List Nat
   | [] => []
-  | r :: rs => if r.evid == 1 then r.own :: indWalk r.own rs else cur :: indWalk cur rs
+  | r :: rs => if isDoseEv r.evid then r.own :: indWalk r.own rs else cur :: indWalk cur rs
 
 def indAdmid (b : List ARow) : List Nat :=
   match b with
